@@ -18,7 +18,7 @@ MODULES = ["LbfgsbVerif.Props.C04"]
 def features(r):
     return {"jac": r.choice(["callable"] * 5 + ["2-point", "none"]),
             "callback": r.choice(["none", "false", "stop", "stop"]),
-            "ftarget": r.choice(["none", "float", "callable"]),
+            "ftarget": r.choice(["none", "float", "callable", "int", "callable_int"]),
             "gtol_callable": r.random() < 0.3,
             "scaler": r.choice(["none", "none", "none", "const"]),
             "update": r.choice(["none", "none", "none", "identity"])}
